@@ -152,30 +152,35 @@ void xv_env(void) {
 #endif
 
 /* ================= specification helpers ================= */
-struct view { unsigned n; _Bool ok; uint64_t k[MAXI], v[MAXI]; };
-/* abstract content of a bucket under state word st, in traversal order: array slots 0..count-1, then the chain */
+struct view { unsigned c, m, n; _Bool ok; uint64_t k[MAXI], v[MAXI]; };   /* slots 0..c-1: array items; slots NI..NI+m-1: chain items; n = c + m */
+/* abstract content of a bucket under state word st; traversal order (= rank): array slots 0..count-1, then the chain in link order */
+static unsigned vslot(const struct view* w, unsigned rank) { return rank < w->c ? rank : NI + (rank - w->c); }
+static _Bool vvalid(const struct view* w, unsigned slot) { return slot < NI ? slot < w->c : slot - NI < w->m; }
+static int vrank(const struct view* w, unsigned slot) { return slot < NI ? (int)slot : (int)(w->c + (slot - NI)); }
+static uint64_t vkey(const struct view* w, unsigned rank) { unsigned s = vslot(w, rank); return w->k[s < MAXI ? s : 0]; }
+static uint64_t vval(const struct view* w, unsigned rank) { unsigned s = vslot(w, rank); return w->v[s < MAXI ? s : 0]; }
 static void sp_view(struct bkt* b, bstate_t st, struct view* w) {
-  unsigned c = BS_item_count(st); w->n = 0; w->ok = 1;
+  unsigned c = BS_item_count(st); w->ok = 1; w->m = 0;
   for (unsigned i = 0; i < MAXI; i++) { w->k[i] = 0; w->v[i] = 0; }
   if (c > NI) { w->ok = 0; c = NI; }
   for (unsigned i = 0; i < NI; i++) if (i < c) { w->k[i] = b->key[i]; w->v[i] = b->value[i]; }
-  w->n = c;
+  w->c = c;
   if (b->head != 0 && c != NI) w->ok = 0;
   if (BS_delete_marker(st) != 0) w->ok = 0;
-  struct ext* p = b->head; unsigned steps = 0;
-  while (p != 0 && steps < L) {
-    int i = pool_idx(p);
-    if (i < 0 || freed[i]) { w->ok = 0; return; }
-    w->k[w->n] = p->key; w->v[w->n] = p->value; w->n++;
-    p = p->next; steps++;
+  struct ext* p = b->head;
+  for (unsigned i = 0; i < L; i++) if (p != 0) {
+    int x = pool_idx(p);
+    if (x < 0 || freed[x]) { w->ok = 0; p = 0; }
+    else { w->k[NI + i] = p->key; w->v[NI + i] = p->value; w->m = i + 1; p = p->next; }
   }
   if (p != 0) w->ok = 0;                                               /* cyclic / leaves the pool */
+  w->n = w->c + w->m;
 }
 static _Bool sp_distinct(const struct view* w) {
-  for (unsigned i = 0; i < MAXI; i++) for (unsigned j = i + 1; j < MAXI; j++) if (j < w->n && w->k[i] == w->k[j]) return 0;
+  for (unsigned i = 0; i < MAXI; i++) for (unsigned j = i + 1; j < MAXI; j++) if (vvalid(w, i) && vvalid(w, j) && w->k[i] == w->k[j]) return 0;
   return 1;
 }
-static int sp_rank_of_key(const struct view* w, uint64_t k) { for (unsigned i = 0; i < MAXI; i++) if (i < w->n && w->k[i] == k) return (int)i; return -1; }
+static int sp_rank_of_key(const struct view* w, uint64_t k) { for (unsigned i = 0; i < MAXI; i++) if (vvalid(w, i) && w->k[i] == k) return vrank(w, i); return -1; }
 static int bucket_idx(struct bkt* b) { for (unsigned j = 0; j < NB; j++) if (b == &G.bks[j]) return (int)j; return -1; }
 static _Bool is_end(const struct vit* it) {
   return it->block == 0 && it->current_bucket == 0 && it->current_bucket_state == 0 && it->index == 0 && it->extension == 0 && it->prev == 0; }
@@ -298,7 +303,7 @@ void h_find(void) {
   struct bkt* b = &G.bks[in_cb];
   struct view w0; sp_view(b, b->state, &w0); XV_ASSUME(w0.ok && sp_distinct(&w0));
   uint64_t key = nondet_u64();
-  XV_ASSUME(in_present ? (in_rank < w0.n && w0.k[in_rank < MAXI ? in_rank : 0] == key) : sp_rank_of_key(&w0, key) < 0);
+  XV_ASSUME(in_present ? (in_rank < w0.n && vkey(&w0, in_rank) == key) : sp_rank_of_key(&w0, key) < 0);
   struct blk g0 = G; struct ext e0[LP]; snapshot_pool(e0);
   struct vit it = vhm_find(&M, key);
   if (in_present) {
@@ -342,7 +347,10 @@ void h_next(void) {
     if (in_rank + 1 < in_count) XV_CANARY("next.array"); else if (in_rank + 1 == in_count) XV_CANARY("next.array_to_chain"); else XV_CANARY("next.chain");
   } else {
     XV_OBL("vhm.it.traverse.once", sp_moved_ok((int)in_cb, &g0, &it) && b->state == cbs0);
-    if (is_end(&it)) XV_CANARY("next.to_end"); else XV_CANARY("next.to_next_bucket");
+    if (is_end(&it)) XV_CANARY("next.to_end");
+#if CB + 1 < NB
+    else XV_CANARY("next.to_next_bucket");
+#endif
   }
 }
 
@@ -352,7 +360,7 @@ void h_deref(void) {
   struct bkt* b = &G.bks[in_cb]; struct view w0; sp_view(b, b->state, &w0); XV_ASSUME(w0.ok && in_rank < w0.n);
   struct vit it; position(&it, in_cb, in_rank);
   struct kv r = vit_deref(&it);
-  XV_OBL("vhm.it.deref.current", r.first == w0.k[in_rank < MAXI ? in_rank : 0] && r.second == w0.v[in_rank < MAXI ? in_rank : 0]);
+  XV_OBL("vhm.it.deref.current", r.first == vkey(&w0, in_rank) && r.second == vval(&w0, in_rank));
   if (it.extension) XV_CANARY("deref.ext"); else XV_CANARY("deref.array");
 }
 
@@ -367,7 +375,7 @@ void h_erase(void) {
   struct vit it; position(&it, in_cb, in_rank);
   XV_MODEL_ASSERT("position builds II", sp_II(&it, -1) && sp_rank(&it) == (int)in_rank);
   struct blk g0 = G; bstate_t cbs0 = it.current_bucket_state; uint32_t v0 = BS_version(cbs0);
-  uint64_t cur_key = w0.k[in_rank < MAXI ? in_rank : 0];
+  uint64_t cur_key = vkey(&w0, in_rank);
   uint64_t gk = nondet_u64();                                  /* an arbitrary key: ghost index over the abstract map */
   int og = sp_rank_of_key(&w0, gk);
   struct ext* cur_ext = it.extension; struct ext* old_head = b->head;
@@ -382,7 +390,7 @@ void h_erase(void) {
   if (gk == cur_key) XV_OBL("vhm.it.erase.exact", ng < 0);
   else {
     XV_OBL("vhm.it.erase.exact", (og < 0) == (ng < 0));
-    if (og >= 0 && ng >= 0) XV_OBL("vhm.it.erase.exact", w1.v[ng < MAXI ? ng : 0] == w0.v[og < MAXI ? og : 0]);
+    if (og >= 0 && ng >= 0) XV_OBL("vhm.it.erase.exact", vval(&w1, (unsigned)ng) == vval(&w0, (unsigned)og));
   }
   if (cur_ext != 0) XV_OBL("vhm.it.erase.exact", free_count == 1 && freed[pool_idx(cur_ext) >= 0 ? pool_idx(cur_ext) : 0]);   /* case 1: the item itself */
   else if (old_head != 0) XV_OBL("vhm.it.erase.exact", free_count == 1 && freed[0]);                                           /* case 2: the chain head that was moved into the slot */
@@ -445,17 +453,14 @@ static void mnb_common(void) {
   for (unsigned j = 0; j < NB; j++) if (j > in_cb && lock_count[j] > 0)
     XV_OBL("vhm.it.next_bucket.hand_over_hand", lock_count[j] == 1 && lock_clock[j] < unlock_clock[j - 1]);
   for (unsigned j = 0; j < NB; j++) if (j < in_cb) XV_OBL("vhm.it.next_bucket.hand_over_hand", lock_count[j] == 0 && unlock_count[j] == 0);
-  if (is_end(&it)) {
-    if (in_cb == NB - 1) XV_CANARY("mnb.last_bucket");
-#if NB >= 2
-    else XV_CANARY("mnb.skipped_to_end");
-#endif
-  }
-#if NB >= 2
+#if CB == NB - 1
+  if (is_end(&it)) XV_CANARY("mnb.last_bucket");
+#else
+  if (is_end(&it)) XV_CANARY("mnb.skipped_to_end");
   else if (it.current_bucket == b + 1) XV_CANARY("mnb.adjacent");
-#endif
-#if NB >= 3
+#if CB + 2 < NB
   else XV_CANARY("mnb.skipped_empty");
+#endif
 #endif
 #else
   /* under interference: whatever the other threads did to buckets the iterator does not hold, it published its copy on the bucket it
@@ -463,12 +468,14 @@ static void mnb_common(void) {
   env_on = 1; vit_move_to_next_bucket_cut(&it); xv_env(); env_on = 0;
   XV_OBL("vhm.it.exclusive", !held[in_cb] && unlock_count[in_cb] == 1 && unlock_value[in_cb] == cbs0);
   if (is_end(&it)) { XV_OBL("vhm.it.exclusive", mon_nothing_held()); XV_CANARY("mnb_int.end"); }
+#if CB + 1 < NB
   else {
     int j = bucket_idx(it.current_bucket);
     XV_OBL("vhm.it.exclusive", j > (int)in_cb && mon_only_held(it.current_bucket) && G.bks[j >= 0 ? j : 0].state == BS_locked(it.current_bucket_state)
                                && !BS_is_locked(it.current_bucket_state) && BS_item_count(it.current_bucket_state) > 0 && it.index == 0 && it.extension == 0);
     XV_CANARY("mnb_int.positioned");
   }
+#endif
 #endif
 }
 void h_mnb(void) { mnb_common(); }
@@ -536,7 +543,7 @@ void h_traverse(void) {
     XV_OBL("vhm.it.traverse.once", sp_II(&it, -1));
     if (it.current_bucket == &G.bks[gb] && sp_rank(&it) == (int)gr) {
       struct kv r = vit_deref(&it);
-      XV_OBL("vhm.it.traverse.once", r.first == wg.k[gr < MAXI ? gr : 0] && r.second == wg.v[gr < MAXI ? gr : 0]);
+      XV_OBL("vhm.it.traverse.once", r.first == vkey(&wg, gr) && r.second == vval(&wg, gr));
       visits++;
     }
     vit_next(&it); steps++;
